@@ -472,8 +472,23 @@ def execute(program, schedule, directory):
                     FAULTS.arm(None, 0)
                 inv = w.sched.step
                 w.in_op = True
-                out = ops.real_apply(handles[op["h"]], kinds[op["h"]], op["m"], dec(op.get("a", [])),
-                                     dec(op.get("kw", {})))
+                if op["m"] == "set_filename":
+                    try:
+                        handles[op["h"]].filename = files[op["a"][0]].path
+                        out = ops.Outcome(True, None)
+                    except Exception as e:  # noqa: BLE001
+                        out = ops.Outcome(False, family=ops.exc_family(e),
+                                          detail=f"{type(e).__name__}: {str(e)[:120]}")
+                elif op["m"] == "construct":
+                    try:
+                        handles.append(files[op["a"][0]].make(ci))
+                        out = ops.Outcome(True, None)
+                    except Exception as e:  # noqa: BLE001
+                        out = ops.Outcome(False, family=ops.exc_family(e),
+                                          detail=f"{type(e).__name__}: {str(e)[:120]}")
+                else:
+                    out = ops.real_apply(handles[op["h"]], kinds[op["h"]], op["m"], dec(op.get("a", [])),
+                                         dec(op.get("kw", {})))
                 w.in_op = False
                 io_calls = list(FAULTS.calls) if FAULTS.armed else None
                 fired = FAULTS.fired
